@@ -66,6 +66,9 @@ class Run:
         self.snoop = snoop
         self.kind = p["variant"].split("-")[0]
         self.flags = {"vec": p.get("vec_enabled", True), "grp": p.get("grp_enabled", True)}
+        # BLOB elements for which an update was published after the client's latest definition (I-13): with FIFO
+        # delivery the client must then hold exactly the driver's BLOB
+        self.blob_strict = {}
         if snoop:
             self.client = self.w.devices[1].snoop_device("DEV0")
             self.w.settle()
@@ -77,7 +80,31 @@ class Run:
     def close(self):
         self.w.close()
 
+    def _note_blob(self, op):
+        if self.kind != "blob":
+            return
+        en = self.flags["vec"] and self.flags["grp"]
+        o = op[0]
+        if o in ("assign", "set_value") and en:
+            self.blob_strict[op[1].upper()] = True
+        elif o == "cwrite" and en:
+            self.blob_strict[op[1]] = True
+        elif o in ("vec-enabled", "grp-enabled"):
+            if en:
+                for k in ("A", "B"):
+                    self.blob_strict[k] = True  # re-enabling publishes the definition followed by the update
+            else:
+                self.blob_strict = {}
+        elif o == "handshake":
+            self.blob_strict = {}  # a fresh definition carries no payload
+
     def apply(self, op):
+        r = self._apply(op)
+        if r != "skipped":
+            self._note_blob(op)
+        return r
+
+    def _apply(self, op):
         dev, spec = self.w.devices[0], self.specs[0]
         g1 = DM.live_group(dev, spec["groups"][0])
         vec = g1.vectors["t"]
@@ -198,7 +225,9 @@ def judge(run, emitted_after_def=None):
             if tv["kind"] == "number":
                 ok = DM.number_matches(val, e["value"], e["spec"].get("format", "%f"))
             elif tv["kind"] == "blob":
-                ok = val is None or DM.blob_equiv(val, e["value"])
+                strict = (dn == "DEV0" and vn == "TGT" and run.blob_strict.get(n) and not run.snoop
+                          and run.w.delivery == "whole" and run.w.chooser is None and not run.w.cuts)
+                ok = DM.blob_equiv(val, e["value"]) or (val is None and not strict)
             else:
                 ok = val == (e["value"] if e["value"] != "" else None)
             if not ok:
